@@ -60,12 +60,16 @@ CLAIMS.update({
   text=('What "the sequence of edits implies" is made precise as a Coq specification (Spec/FsSpec.v: three namespaces as finite maps, '
         'blobs, hard links, El Torito catalog names, hidden flags, reopening).  Proved (closed): every reachable specification state is a '
         'well-formed file system (unique names, every entry inside an existing directory) for ALL edit histories, a refused edit changes '
-        'nothing, add_fp binds exactly the names given and nothing else.  The claim about pycdlib -- the written-and-reopened image shows '
+        'nothing, add_fp binds exactly the names given and nothing else.  For images with ISO9660 level 3 + Joliet the library\'s OBJECT GRAPH '
+        'is modelled as a state machine (Model/AccountNs.v) and proved to REFINE the specification for all histories: '
+        'C01_object_graph_refines_the_specification, C01_api_view_is_the_specification_view (what the API can observe = the specification\'s view), '
+        'C01_late_refusal_is_spec_refusal_with_leftover, C01_declared_sizes_exact_two_namespaces; that model is compared with the library after '
+        'EVERY operation of random histories (outcome, both space sizes, both path tables, inode table, extents end, API views).  The claim about pycdlib in general -- the written-and-reopened image shows '
         'exactly the specification\'s view in every namespace, every file reads back its bytes, the image opens -- is decided by a '
         'differential run on every check: generated histories over a pairwise-covering configuration set are executed on the library, '
         'the final API view is compared with FsSpec.run evaluated INSIDE Coq (vm_compute), disagreements are shrunk and reported.'),
-  note=('Level: the theorems are about the specification; pycdlib is tied to it by sampling (histories x configurations), not by a proof '
-        'over a model of its object graph.  Trusted: Coq kernel + vm_compute, FsSpec.v as the reading of the property, harness generators/API view. '
+  note=('Level: refinement object graph -> specification proved for the ISO9660(level 3)+Joliet fragment (no Rock Ridge/UDF/El Torito, names ASCII, '
+        'one extent per file); outside it the theorems are about the specification and pycdlib is tied to it by sampling (histories x configurations).  Trusted: Coq kernel + vm_compute, FsSpec.v as the reading of the property, harness generators/API view. '
         'ISO9660 paths <= 6 deep (relocation: C08); Rock Ridge names in bijection with ISO names.'),
   technique='Coq specification with invariant/frame theorems + differential run of pycdlib against the specification evaluated in Coq',
   design='§8.1'),
